@@ -47,8 +47,10 @@ structure Core (F P Err : Type) where
   /-- the inverse / forward closure, evaluated on the initialised record -/
   inv : P → F → F → Except Err (F × F)
   fwd : P → F → F → Except Err (F × F)
-  /-- `datumTransform(heap[i].datum, heap[j].datum, x, y, z)` -/
-  dt : Nat → Nat → F → F → F → Except Err (F × F × F)
+  /-- `datumTransform(heap[i].datum, heap[j].datum, x, y, z)`: its answer, an error it returns, or a PANIC of
+  one of its callees (`compare_datums` and the geocentric conversions index `datum_params`), which unwinds
+  through the deferred restore and through `transform3` and the closure: a panic of the call (`Res.panic`) -/
+  dt : Nat → Nat → F → F → F → Except (Fail Err) (F × F × F)
   /-- the error of `adjust_axis` for an unknown axis letter -/
   axisErr : Err
 
@@ -161,7 +163,7 @@ def body (c : Core F P Err) (s d : Nat) (S D : SR F P) (x y z : F) : Res3 F Err 
     | .ok (x, y) =>
       let x := if isNaN S.fromGreenwich then x else add x S.fromGreenwich
       match c.dt s d x y z with
-      | .error e => .err e
+      | .error e => failToRes e
       | .ok (x, y, z) =>
         let x := if isNaN D.fromGreenwich then x else sub x D.fromGreenwich
         let r : Except Err (F × F) :=
